@@ -76,6 +76,7 @@ const (
 	OAConst
 	OAStore
 	OACopy // args: dst, dstOff, src, srcOff, n
+	OAXor  // args: dst, dstOff, src, srcOff, ks, ksOff, n : dst[dstOff+i] = src[srcOff+i] xor ks[ksOff+i]
 )
 
 type Term struct {
@@ -494,6 +495,13 @@ func ACopy(dst, do, src, so, n *Term) *Term {
 	return mk(OACopy, dst.S, []*Term{dst, do, src, so, n}, 0, 0, 0, "")
 }
 
+func AXor(dst, do, src, so, ks, ko, n *Term) *Term {
+	if n.IsConst() && n.Val == 0 {
+		return dst
+	}
+	return mk(OAXor, dst.S, []*Term{dst, do, src, so, ks, ko, n}, 0, 0, 0, "")
+}
+
 // Select pushes reads through stores and copies.
 func Select(a, i *Term) *Term {
 	switch a.Op {
@@ -519,6 +527,18 @@ func Select(a, i *Term) *Term {
 			return sv
 		}
 		return Ite(in, sv, Select(dst, i))
+	case OAXor:
+		dst, do, src, so, ks, ko, n := a.Args[0], a.Args[1], a.Args[2], a.Args[3], a.Args[4], a.Args[5], a.Args[6]
+		in := And(Ule(do, i), Ult(i, Add(do, n)))
+		if in.IsFalse() {
+			return Select(dst, i)
+		}
+		d := Sub(i, do)
+		xv := BXor(Select(src, Add(d, so)), Select(ks, Add(d, ko)))
+		if in.IsTrue() {
+			return xv
+		}
+		return Ite(in, xv, Select(dst, i))
 	case OIte:
 		return Ite(a.Args[0], Select(a.Args[1], i), Select(a.Args[2], i))
 	}
@@ -595,7 +615,7 @@ func (p *Printer) ref(t *Term) string {
 		s = fmt.Sprintf("((_ zero_extend %d) %s)", t.A, p.ref(t.Args[0]))
 	case OSext:
 		s = fmt.Sprintf("((_ sign_extend %d) %s)", t.A, p.ref(t.Args[0]))
-	case OAConst, OAStore, OACopy:
+	case OAConst, OAStore, OACopy, OAXor:
 		panic("array-level term reached printer")
 	default:
 		var as []string
